@@ -1,7 +1,7 @@
 (* A concrete netlist reached by editing calls, on which the hypotheses of the enumeration theorems
-   hold and the whole queries compute non-trivial results; the computed witnesses of the two
-   refuted statements (duplicate yield of get_instances from an instance; get_libraries from an
-   instance, OUTSIDE, recursive). *)
+   hold and the whole queries compute non-trivial results; the former witness of the duplicate yield of
+   get_instances from an instance (repaired) and the computed witness of the refuted statement
+   (get_libraries from an instance, OUTSIDE, recursive). *)
 From Coq Require Import List Arith NArith Bool Lia String Wellfounded.
 From SV Require Import Base.Base IR.State IR.NS IR.Ops Proofs.Inv1a Proofs.Inv2a Proofs.InvW Proofs.NsInv
   Hier.Paths Hier.Enum Hier.Trace Query.Glob Query.Regex Query.Patterns Query.Filter Query.Enum Query.EnumSpec
@@ -48,7 +48,7 @@ Proof.
 Qed.
 
 Lemma ex_lookok reg r : ns_rel r = true -> LookOK ex reg str_NAME r.
-Proof. intro Hr. apply lookok_name; [exact ex_nsinv|exact Hr|intro p; apply (ex_tables r p Hr)]. Qed.
+Proof. intro Hr. apply lookok_name; [exact ex_nsinv|exact Hr|intro p; apply (i1_nodup ex (inv_a ex (q_inv ex ex_qwf)))]. Qed.
 
 Definition opt_name (reg : bool) : qopts := mkQ reg true false str_NAME (fun _ => true).
 
@@ -72,9 +72,14 @@ Proof. vm_compute. reflexivity. Qed.
 Example ex_pins_wire_outside : query_pins ex (fun _ => true) 100 [IE 9] false = WOk [POut 10 4; POut 14 7].
 Proof. vm_compute. reflexivity. Qed.
 
-(* ---- witness 1: get_instances(instance u of mid, ['a', 'a*']) yields child a twice ---- *)
-Lemma ex_instances_dup :
-  query_instances ex (opt_name true) 100 [IE 14] false true [s2l "a"; s2l "a*"] = WOk [10; 11; 10].
+(* ---- former witness 1 (finding C13-K1, repaired): get_instances(instance u of mid, ['a', 'a*'])
+        yields child a once; so does the collection [definition mid, instance u of mid] with 'a*'
+        (finding C13-K2, repaired) ---- *)
+Lemma ex_instances_once :
+  query_instances ex (opt_name true) 100 [IE 14] false true [s2l "a"; s2l "a*"] = WOk [10; 11].
+Proof. vm_compute. reflexivity. Qed.
+Lemma ex_instances_once_collection :
+  query_instances ex (opt_name true) 100 [IE 5; IE 14] false true [s2l "a*"] = WOk [10; 11].
 Proof. vm_compute. reflexivity. Qed.
 
 (* ---- witness 2: get_libraries(instance a of leaf inside mid, OUTSIDE, recursive): library W holds
@@ -83,20 +88,39 @@ Lemma ex_libraries_missing :
   query_libraries ex (opt_name true) 100 [IE 10] true false [s2l "*"] = WOk [1].
 Proof. vm_compute. reflexivity. Qed.
 
-(* ---- the two statements the faithful model refutes ---- *)
+(* ---- former witness of finding C13-K3 (repaired): DEFAULT policy, child 10 of mid carries the
+        identifier x; the exact pattern x on key EDIF.identifier finds it, with the fast lookups
+        registered (the namespace answers NotImplemented, global_service.lookup scans) and deregistered ---- *)
+Definition ex_id : state := Ops.run (ex_ops ++ [ODSet 10 str_IDENT (VStr (s2l "x"))]) State.init.
+
+Lemma ex_id_all_default p t : nstab ex_id p = Some t -> ns_pol t = PolDefault.
+Proof.
+  do 17 (destruct p as [|p]; [vm_compute; intro H; first [discriminate H|injection H as <-; reflexivity]|]).
+  vm_compute. discriminate.
+Qed.
+
+Lemma ex_default_policy :
+  (forall p t, nstab ex_id p = Some t -> ns_pol t = PolDefault) /\ str_eqb str_IDENT str_NAME = false /\
+  query_instances ex_id (mkQ true true false str_IDENT (fun _ => true)) 100 [IE 5] false true [s2l "x"] = WOk [10] /\
+  query_instances ex_id (mkQ false true false str_IDENT (fun _ => true)) 100 [IE 5] false true [s2l "x"] = WOk [10] /\
+  query_instances ex_id (mkQ true true false str_IDENT (fun _ => true)) 100 [IE 5] false true [s2l "x*"] = WOk [10].
+Proof.
+  split; [exact ex_id_all_default|]. split; [vm_compute; reflexivity|].
+  split; [vm_compute; reflexivity|]. split; vm_compute; reflexivity.
+Qed.
+
+(* ---- no element twice from any root (held back by findings C13-K1 / C13-K2 before the repair) ---- *)
 Definition instances_nodup_full : Prop :=
   forall s o fuel it rec inside pats res,
     QWF s -> LookOK s (q_reg o) (q_key o) RChildren -> ~ In [] pats ->
     query_instances s o fuel [it] rec inside pats = WOk res -> NoDup res.
 
-Theorem instances_nodup_refuted : ~ instances_nodup_full.
+Theorem instances_nodup_holds : instances_nodup_full.
 Proof.
-  intro H. specialize (H ex (opt_name true) 100 (IE 14) false true [s2l "a"; s2l "a*"] [10; 11; 10] ex_qwf
-                         (ex_lookok true RChildren eq_refl)).
-  assert (Hp : ~ In [] [s2l "a"; s2l "a*"]) by (cbn; intros [E|[E|[]]]; discriminate).
-  specialize (H Hp ex_instances_dup). inversion H as [|? ? Hn _]; subst. apply Hn. right. left. reflexivity.
+  intros s o fuel it rec inside pats res _ _ _ H. exact (query_instances_NoDup s o fuel [it] rec inside pats res H).
 Qed.
 
+(* ---- the statement the faithful model refutes ---- *)
 Definition libraries_full : Prop :=
   forall s o fuel it rec inside pats res,
     QWF s -> LookOK s (q_reg o) (q_key o) RLibs -> ~ In [] pats ->
